@@ -64,8 +64,10 @@ func Compile(cFile string) (*Module, error) {
 	}
 	defer os.RemoveAll(tmp)
 	base := strings.TrimSuffix(filepath.Base(abs), filepath.Ext(abs))
-	raw := filepath.Join(tmp, base+".raw.ll")
-	ssa := filepath.Join(tmp, base+".ll")
+	// relative output names keep the ModuleID line (and so the IR hash)
+	// independent of the temporary directory
+	raw := base + ".raw.ll"
+	ssa := base + ".ll"
 	var cmds []string
 	c1 := append([]string{ClangBin, "-O1", "-Xclang", "-disable-llvm-passes", "-g0"}, includeFlags(abs)...)
 	c1 = append(c1, "-S", "-emit-llvm", "-fno-discard-value-names", "-o", raw, abs)
@@ -78,7 +80,7 @@ func Compile(cFile string) (*Module, error) {
 	if _, err := run(tmp, c2...); err != nil {
 		return nil, fmt.Errorf("opt failed: %v", err)
 	}
-	text, err := os.ReadFile(ssa)
+	text, err := os.ReadFile(filepath.Join(tmp, ssa))
 	if err != nil {
 		return nil, err
 	}
